@@ -357,7 +357,8 @@ def run(tier):
                    "kernel-argument provenance, source texts) tuples")
     return out.finish(cov, assumptions=[
         "family bounds: InvokeBinding.tla Part 2 (13 field texts, 11 scalar "
-        "texts, 5 labels; LFRic pair/scalar/double and GOcean gopair/goscalar families; quick = every 3rd shape, offset VERIF_SEED)",
+        "texts, 5 labels; LFRic pair/scalar/double and GOcean gopair/goscalar "
+        "families; quick = every 3rd shape, offset VERIF_SEED)",
         "kernel-argument provenance is read from the generated PSy text: "
         "X_data => X_proxy%data, X_proxy = D%get_proxy() gives dummy D; scalars "
         "and literals directly; built-ins by their documented assignment form",
